@@ -1,0 +1,36 @@
+//go:build verif
+
+package filesystem
+
+import "sync/atomic"
+
+// This file is only compiled with the "verif" build tag. It provides the fault
+// injection point used by the external verification harness: verifFault is
+// invoked as the first statement of every system call wrapper in this package
+// and, if a callback is installed, lets it make that primitive fail (or
+// observe it, e.g. to count primitives or to cancel a context) before the
+// system call is issued.
+
+// verifFaultCallback holds the installed callback (nil if none).
+var verifFaultCallback atomic.Pointer[func(op, name string) error]
+
+// VerifSetFault installs f as the fault callback. The callback receives the
+// name of the primitive about to be performed (e.g. "openat", "unlinkat",
+// "renameat") and the path or name argument it was given; a non-nil result is
+// returned by the primitive instead of performing the system call. Passing nil
+// removes the callback.
+func VerifSetFault(f func(op, name string) error) {
+	if f == nil {
+		verifFaultCallback.Store(nil)
+	} else {
+		verifFaultCallback.Store(&f)
+	}
+}
+
+// verifFault consults the installed fault callback, if any.
+func verifFault(op, name string) error {
+	if f := verifFaultCallback.Load(); f != nil {
+		return (*f)(op, name)
+	}
+	return nil
+}
